@@ -66,3 +66,85 @@ package ledger
 //@     invariant forall j int :: {moves[2 * j + 1]} 0 <= j && j < k ==> val(moves[2 * j + 1].PostCommitVolumes.Input) == pcvIn(lastPCV, postings[j].Source, postings[j].Asset) - credits_upto(postings, j + 1, postings[j].Source, postings[j].Asset) && val(moves[2 * j + 1].PostCommitVolumes.Output) == pcvOut(lastPCV, postings[j].Source, postings[j].Asset) - debits_upto(postings, j, postings[j].Source, postings[j].Asset)
 //@     invariant forall acc string, x string :: {pcvIn(postCommitVolumes, acc, x)} {pcvIn(lastPCV, acc, x)} pcvHas(lastPCV, acc, x) ==> pcvIn(postCommitVolumes, acc, x) == pcvIn(lastPCV, acc, x) - credits_upto(postings, k, acc, x)
 //@     invariant forall acc string, x string :: {pcvOut(postCommitVolumes, acc, x)} {pcvOut(lastPCV, acc, x)} pcvHas(lastPCV, acc, x) ==> pcvOut(postCommitVolumes, acc, x) == pcvOut(lastPCV, acc, x) - debits_upto(postings, k, acc, x)
+
+// ---- resource handlers: which feature gates which read (C17 C35) -------------------------------------------
+// The bun query builder is abstracted to a descriptor: which JOIN fragments and which column expressions a
+// *bun.SelectQuery carries. Nothing about SQL semantics is assumed; the contracts below only say that a builder call
+// records its own argument and keeps what was recorded before.
+
+//@ assumed func (store *Store) newScopedSelect() (r *bun.SelectQuery)
+//@   ensures r != nil && forall s string :: {joins(r, s)} !joins(r, s)
+//@   ensures forall s string :: {exprs(r, s)} !exprs(r, s)
+
+//@ assumed func (q *bun.SelectQuery) ModelTableExpr(query string, args ...any) (r *bun.SelectQuery)
+//@   ensures r != nil && forall s string :: {joins(r, s)} joins(r, s) == joins(q, s)
+//@   ensures forall s string :: {exprs(r, s)} exprs(r, s) == exprs(q, s)
+
+//@ assumed func (q *bun.SelectQuery) Column(columns ...string) (r *bun.SelectQuery)
+//@   ensures r != nil && forall s string :: {joins(r, s)} joins(r, s) == joins(q, s)
+//@   ensures forall s string :: {exprs(r, s)} exprs(r, s) == exprs(q, s)
+
+//@ assumed func (q *bun.SelectQuery) DistinctOn(query string, args ...any) (r *bun.SelectQuery)
+//@   ensures r != nil && forall s string :: {joins(r, s)} joins(r, s) == joins(q, s)
+//@   ensures forall s string :: {exprs(r, s)} exprs(r, s) == exprs(q, s)
+
+//@ assumed func (q *bun.SelectQuery) Join(join string, args ...any) (r *bun.SelectQuery)
+//@   ensures r != nil && forall s string :: {joins(r, s)} joins(r, s) == (joins(q, s) || s == join)
+//@   ensures forall s string :: {exprs(r, s)} exprs(r, s) == exprs(q, s)
+
+//@ assumed func (q *bun.SelectQuery) ColumnExpr(query string, args ...any) (r *bun.SelectQuery)
+//@   ensures r != nil && forall s string :: {joins(r, s)} joins(r, s) == joins(q, s)
+//@   ensures forall s string :: {exprs(r, s)} exprs(r, s) == (exprs(q, s) || s == query)
+
+//@ func (h transactionsResourceHandler) BuildDataset(opts common.RepositoryHandlerBuildContext[any]) (r *bun.SelectQuery, err error)
+//@   property C17 C35
+//@   requires h.store != nil
+//@   modifies qWhere, qWhereCount, qOrderExpr
+//@   ensures err == nil && r != nil
+//@   ensures joins(r, "left join (?) transactions_metadata on transactions_metadata.transactions_id = transactions.id") == (h.store.ledger.Features["TRANSACTION_METADATA_HISTORY"] == "SYNC" && opts.PIT != nil && !tzero(deref(opts.PIT)))
+//@   ensures exprs(r, "metadata") == !(h.store.ledger.Features["TRANSACTION_METADATA_HISTORY"] == "SYNC" && opts.PIT != nil && !tzero(deref(opts.PIT)))
+
+//@ func (h accountsResourceHandler) BuildDataset(opts common.RepositoryHandlerBuildContext[any]) (r *bun.SelectQuery, err error)
+//@   property C17 C35
+//@   requires h.store != nil
+//@   modifies qWhere, qWhereCount, qOrderExpr
+//@   ensures err == nil && r != nil
+//@   ensures joins(r, "left join (?) accounts_metadata on accounts_metadata.accounts_address = accounts.address") == (h.store.ledger.Features["ACCOUNT_METADATA_HISTORY"] == "SYNC" && opts.PIT != nil && !tzero(deref(opts.PIT)))
+//@   ensures exprs(r, "accounts.metadata") == !(h.store.ledger.Features["ACCOUNT_METADATA_HISTORY"] == "SYNC" && opts.PIT != nil && !tzero(deref(opts.PIT)))
+
+//@ func (h transactionsResourceHandler) Expand(q common.ResourceQuery[any], property string) (r *bun.SelectQuery, j *common.JoinCondition, err error)
+//@   property C35
+//@   requires h.store != nil
+//@   modifies qWhere, qWhereCount, qOrderExpr
+//@   ensures property == "effectiveVolumes" && h.store.ledger.Features["MOVES_HISTORY_POST_COMMIT_EFFECTIVE_VOLUMES"] != "SYNC" ==> err != nil && isErr(err, ErrMissingFeature) && r == nil
+//@   ensures property != "effectiveVolumes" ==> r == nil && err == nil
+
+//@ func (h accountsResourceHandler) Expand(opts common.ResourceQuery[any], property string) (r *bun.SelectQuery, j *common.JoinCondition, err error)
+//@   property C35
+//@   requires h.store != nil
+//@   modifies qWhere, qWhereCount, qOrderExpr
+//@   ensures property == "volumes" && h.store.ledger.Features["MOVES_HISTORY"] != "ON" ==> err != nil && r == nil
+//@   ensures property == "effectiveVolumes" && h.store.ledger.Features["MOVES_HISTORY_POST_COMMIT_EFFECTIVE_VOLUMES"] != "SYNC" ==> err != nil && r == nil
+
+//@ func (h volumesResourceHandler) BuildDataset(query common.RepositoryHandlerBuildContext[ledger.GetVolumesOptions]) (r *bun.SelectQuery, err error)
+//@   property C35
+//@   requires h.store != nil
+//@   modifies qWhere, qWhereCount, qOrderExpr
+//@   ensures ((query.PIT != nil && !tzero(deref(query.PIT))) || (query.OOT != nil && !tzero(deref(query.OOT)))) && h.store.ledger.Features["MOVES_HISTORY"] != "ON" ==> err != nil && isErr(err, ErrMissingFeature) && r == nil
+
+//@ func (h aggregatedBalancesResourceRepositoryHandler) BuildDataset(query common.RepositoryHandlerBuildContext[ledger.GetAggregatedVolumesOptions]) (r *bun.SelectQuery, err error)
+//@   property C35
+//@   requires h.store != nil
+//@   modifies qWhere, qWhereCount, qOrderExpr
+//@   ensures query.PIT != nil && !tzero(deref(query.PIT)) && query.Opts.UseInsertionDate && h.store.ledger.Features["MOVES_HISTORY"] != "ON" ==> err != nil && isErr(err, ErrMissingFeature) && r == nil
+//@   ensures query.PIT != nil && !tzero(deref(query.PIT)) && !query.Opts.UseInsertionDate && h.store.ledger.Features["MOVES_HISTORY_POST_COMMIT_EFFECTIVE_VOLUMES"] != "SYNC" ==> err != nil && isErr(err, ErrMissingFeature) && r == nil
+
+// A filter value reaches ResolveFilter only after ResourceRepository.validateFilters accepted it against the entity schema
+// (string-typed properties carry strings unless the operator is $in); that is the `requires` below.
+//@ func (h accountsResourceHandler) ResolveFilter(opts common.ResourceQuery[any], operator string, property string, value any) (s string, args []any, err error)
+//@   property C35 C38
+//@   requires h.store != nil
+//@   requires (property == "address" || property == "account") && operator != "$in" ==> is(value, string)
+//@   modifies qWhere, qWhereCount, qOrderExpr
+//@   ensures (property != "address" && property != "account" && property != "first_usage" && property != "insertion_date" && property != "updated_at" && (reMatch(balanceRegex, property) || property == "balance") && opts.PIT != nil && !tzero(deref(opts.PIT)) && h.store.ledger.Features["MOVES_HISTORY"] != "ON") ==> err != nil && isErr(err, ErrMissingFeature)
+//@   ensures (property != "address" && property != "account" && property != "first_usage" && property != "insertion_date" && property != "updated_at" && (reMatch(balanceRegex, property) || property == "balance") && opts.PIT != nil && !tzero(deref(opts.PIT)) && h.store.ledger.Features["MOVES_HISTORY_POST_COMMIT_EFFECTIVE_VOLUMES"] != "SYNC") ==> err != nil && isErr(err, ErrMissingFeature)
